@@ -3,6 +3,11 @@
 -/
 import PyModeS.Proofs.Bits
 import PyModeS.Model.Commb
+import PyModeS.Proofs.Infer.Main
+import PyModeS.Proofs.Infer.Sound
+import PyModeS.Proofs.Infer.Bds50
+import PyModeS.Proofs.Infer.Bds40
+import PyModeS.Proofs.Infer.Bds60
 namespace PyModeS.C12
 
 /-- an all-zero MB field of a 112-bit frame is reported as EMPTY whatever the header says -/
@@ -22,5 +27,534 @@ theorem inferAdsb_table : (List.range 32).map inferAdsb =
      some "BDS05", some "BDS05", some "BDS05", some "BDS05", some "BDS05", some "BDS05", some "BDS05", some "BDS05", some "BDS05",
      some "BDS05", some "BDS09", some "BDS05", some "BDS05", some "BDS05", none, none, none, none, none, some "BDS61",
      some "BDS62", none, some "BDS65"] := by decide
+
+
+/-!
+  ## Totality, exact Comm-B answer, soundness of the format rules, completeness of BDS 5,0
+
+  Proofs in PyModeS/Proofs/Infer/{Base,Rules,Main,Sound,Build,Bds50}.lean.  On a 112-bit frame every rule
+  `isXX` equals an explicit Boolean function `Infer.isXXP` of the 56-bit MB field `Infer.mbOf bits`
+  (`bits[32:88]`), read with `Infer.bitAt d i` (bit `i`, 0-based) and `Infer.fld d a b` (unsigned `d[a:b]`).
+-/
+
+open PyModeS.Infer
+
+/-- a 112-bit frame used in the non-vacuity examples: DF20, a BDS 5,0-looking payload -/
+def exFrame50 : Bits := natToBits 32 0xA0001838 ++ mb50 true false 10 true false 100 true 220 true false 3 true 230
+  ++ natToBits 24 0x123456
+
+/-- a DF20 frame whose MB field starts with 0x10 (BDS 1,0-looking) -/
+def exFrame10 : Bits := natToBits 32 0xA0001838 ++ natToBits 56 0x10030A80F50000 ++ natToBits 24 0
+
+theorem exFrame50_length : exFrame50.length = 112 := by decide
+theorem exFrame10_length : exFrame10.length = 112 := by decide
+
+/-! ### 8. totality -/
+
+/-- frame-level form of each rule: a value, and which one -/
+theorem is10_frame (bits : Bits) (h : bits.length = 112) : is10 bits = .val (is10P (mbOf bits)) := is10_val bits h
+theorem is17_frame (bits : Bits) (h : bits.length = 112) : is17 bits = .val (is17P (mbOf bits)) := is17_val bits h
+theorem is20_frame (bits : Bits) (h : bits.length = 112) : is20 bits = .val (is20P (mbOf bits)) := is20_val bits h
+theorem is30_frame (bits : Bits) (h : bits.length = 112) : is30 bits = .val (is30P (mbOf bits)) := is30_val bits h
+theorem is40_frame (bits : Bits) (h : bits.length = 112) : is40 bits = .val (is40P (mbOf bits)) := is40_val bits h
+theorem is44_frame (bits : Bits) (h : bits.length = 112) : is44 bits = .val (is44P (mbOf bits)) := is44_val bits h
+theorem is45_frame (bits : Bits) (h : bits.length = 112) : is45 bits = .val (is45P (mbOf bits)) := is45_val bits h
+theorem is50_frame (bits : Bits) (h : bits.length = 112) : is50 bits = .val (is50P (mbOf bits)) := is50_val bits h
+theorem is53_frame (bits : Bits) (h : bits.length = 112) : is53 bits = .val (is53P (mbOf bits)) := is53_val bits h
+theorem is60_frame (ias : Rat → Int → Rat) (bits : Bits) (h : bits.length = 112) :
+    is60 ias bits = .val (is60P ias bits) := is60_val ias bits h
+
+theorem is10_total (bits : Bits) (h : bits.length = 112) : ∃ b, is10 bits = .val b := ⟨_, is10_val bits h⟩
+theorem is17_total (bits : Bits) (h : bits.length = 112) : ∃ b, is17 bits = .val b := ⟨_, is17_val bits h⟩
+theorem is20_total (bits : Bits) (h : bits.length = 112) : ∃ b, is20 bits = .val b := ⟨_, is20_val bits h⟩
+theorem is30_total (bits : Bits) (h : bits.length = 112) : ∃ b, is30 bits = .val b := ⟨_, is30_val bits h⟩
+theorem is40_total (bits : Bits) (h : bits.length = 112) : ∃ b, is40 bits = .val b := ⟨_, is40_val bits h⟩
+theorem is44_total (bits : Bits) (h : bits.length = 112) : ∃ b, is44 bits = .val b := ⟨_, is44_val bits h⟩
+theorem is45_total (bits : Bits) (h : bits.length = 112) : ∃ b, is45 bits = .val b := ⟨_, is45_val bits h⟩
+theorem is50_total (bits : Bits) (h : bits.length = 112) : ∃ b, is50 bits = .val b := ⟨_, is50_val bits h⟩
+theorem is53_total (bits : Bits) (h : bits.length = 112) : ∃ b, is53 bits = .val b := ⟨_, is53_val bits h⟩
+theorem is60_total (ias : Rat → Int → Rat) (bits : Bits) (h : bits.length = 112) : ∃ b, is60 ias bits = .val b :=
+  ⟨_, is60_val ias bits h⟩
+
+/-- `infer` as an explicit total function of the frame -/
+theorem infer_frame (ias : Rat → Int → Rat) (bits : Bits) (mrar : Bool) (h : bits.length = 112) :
+    infer ias bits mrar = .val (inferP ias bits mrar) := infer_val ias bits mrar h
+
+/-- for every 112-bit message `infer` terminates without an exception (no `rte`, no `exc`),
+    whatever the airspeed function of the altitude cross-check and whatever `mrar` -/
+theorem infer_total (ias : Rat → Int → Rat) (bits : Bits) (mrar : Bool) (h : bits.length = 112) :
+    ∃ r, infer ias bits mrar = .val r := ⟨_, infer_val ias bits mrar h⟩
+
+example : ∃ r, infer (fun _ _ => 0) exFrame50 true = .val r := infer_total _ _ _ exFrame50_length
+
+/-- the all-zero test itself is total, and says what it should -/
+theorem allzerosB_frame (bits : Bits) (h : bits.length = 112) :
+    allzerosB bits = .val (decide (bin2int (slice 32 88 bits) = 0)) := allzerosB_val bits h
+
+/-! ### 9. the Comm-B answer -/
+
+/-- Comm-B path: MB not all zero and not a DF17 frame whose type code names a register.  The answer is the
+    comma-joined list of the labels of the rules that hold, in the order
+    BDS10, BDS17, BDS20, BDS30, BDS40, [BDS44, BDS45 only with `mrar`], BDS50, BDS60; `None` if there is none.
+    Stated through the Boolean results of the nine rules (which exist by section 8). -/
+theorem infer_commb_eq_rules (ias : Rat → Int → Rat) (bits : Bits) (mrar : Bool) (h : bits.length = 112)
+    (hz : allzerosB bits = .val false)
+    (hadsb : dfB bits = 17 → ∀ tc, tcB bits = some tc → inferAdsb tc = none)
+    (b10 b17 b20 b30 b40 b44 b45 b50 b60 : Bool)
+    (h10 : is10 bits = .val b10) (h17 : is17 bits = .val b17) (h20 : is20 bits = .val b20)
+    (h30 : is30 bits = .val b30) (h40 : is40 bits = .val b40) (h44 : is44 bits = .val b44)
+    (h45 : is45 bits = .val b45) (h50 : is50 bits = .val b50) (h60 : is60 ias bits = .val b60) :
+    infer ias bits mrar = .val (joinLabels
+      (sel b10 "BDS10" ++ sel b17 "BDS17" ++ sel b20 "BDS20" ++ sel b30 "BDS30" ++ sel b40 "BDS40" ++
+       sel (b44 && mrar) "BDS44" ++ sel (b45 && mrar) "BDS45" ++ sel b50 "BDS50" ++ sel b60 "BDS60")) := by
+  rw [infer_val ias bits mrar h]
+  rw [is10_val bits h] at h10; rw [is17_val bits h] at h17; rw [is20_val bits h] at h20
+  rw [is30_val bits h] at h30; rw [is40_val bits h] at h40; rw [is44_val bits h] at h44
+  rw [is45_val bits h] at h45; rw [is50_val bits h] at h50; rw [is60_val ias bits h] at h60
+  injection h10 with h10; injection h17 with h17; injection h20 with h20; injection h30 with h30
+  injection h40 with h40; injection h44 with h44; injection h45 with h45; injection h50 with h50
+  injection h60 with h60
+  rw [allzerosB_val bits h] at hz
+  injection hz with hz
+  have hz' : ¬ bin2int (mbOf bits) = 0 := by simpa using hz
+  have ha : adsbOf bits = none := by
+    unfold adsbOf
+    split
+    · rename_i h17'
+      cases htc : tcB bits with
+      | none => rfl
+      | some tc => exact hadsb h17' tc htc
+    · rfl
+  unfold inferP labelsP
+  rw [if_neg hz', ha]
+  simp only [h10, h17, h20, h30, h40, h44, h45, h50, h60]
+
+/-- the same with the explicit rule functions -/
+theorem infer_commb_frame (ias : Rat → Int → Rat) (bits : Bits) (mrar : Bool) (h : bits.length = 112)
+    (hz : bin2int (mbOf bits) ≠ 0) (ha : adsbOf bits = none) :
+    infer ias bits mrar = .val (joinLabels (labelsP ias bits mrar)) := by
+  rw [infer_val ias bits mrar h]
+  unfold inferP
+  rw [if_neg hz, ha]
+
+/-- the order in which `infer` lists the registers is the lexicographic (`String` `<`) order … -/
+theorem labels_sorted :
+    List.Pairwise (· < ·) ["BDS10", "BDS17", "BDS20", "BDS30", "BDS40", "BDS44", "BDS45", "BDS50", "BDS60"] :=
+  Infer.labels_sorted
+
+/-- … so whatever the nine results are, the list that is joined is strictly increasing (no duplicates) … -/
+theorem labels_sel_sorted (b10 b17 b20 b30 b40 b44 b45 b50 b60 : Bool) :
+    List.Pairwise (· < ·)
+      (sel b10 "BDS10" ++ sel b17 "BDS17" ++ sel b20 "BDS20" ++ sel b30 "BDS30" ++ sel b40 "BDS40" ++
+       sel b44 "BDS44" ++ sel b45 "BDS45" ++ sel b50 "BDS50" ++ sel b60 "BDS60") := by
+  refine List.Pairwise.sublist ?_ Infer.labels_sorted
+  have e : allLabels = ["BDS10"] ++ ["BDS17"] ++ ["BDS20"] ++ ["BDS30"] ++ ["BDS40"] ++ ["BDS44"] ++ ["BDS45"] ++
+      ["BDS50"] ++ ["BDS60"] := rfl
+  rw [e]
+  repeat (first | exact sel_sublist _ _ | apply List.Sublist.append)
+
+/-- … and sorting it (Python's `sorted`) is the identity -/
+theorem sorted_is_identity (l : List String) (h : List.Pairwise (· < ·) l) :
+    l.mergeSort (fun a b => decide (a ≤ b)) = l := by
+  apply List.mergeSort_of_pairwise
+  refine List.Pairwise.imp ?_ h
+  intro a b hab
+  simp only [decide_eq_true_eq]
+  exact Std.le_of_not_ge (fun h' => h' hab)
+
+theorem labelsP_sorted (ias : Rat → Int → Rat) (bits : Bits) (mrar : Bool) :
+    (labelsP ias bits mrar).mergeSort (fun a b => decide (a ≤ b)) = labelsP ias bits mrar :=
+  sorted_is_identity _ (Infer.labelsP_sorted ias bits mrar)
+
+example : infer (fun _ _ => 0) exFrame10 false = .val (some "BDS10") := by decide +kernel
+
+/-! ### 10. soundness of the status and reserved-bit rules -/
+
+/-- `wrongstatus(d, sb, msb, lsb)` on in-range arguments: status bit 0 although the field is not all zero -/
+theorem wrongstatus_spec (d : Bits) (sb msb lsb : Nat) (h0 : 1 ≤ sb) (h1 : sb ≤ d.length) (h2 : 1 ≤ msb)
+    (h3 : msb ≤ lsb) (h4 : msb ≤ d.length) :
+    wrongstatus d sb msb lsb
+      = .val (decide (d.getD (sb - 1) false = false ∧ bin2int (slice (msb - 1) lsb d) ≠ 0)) := by
+  rw [wrongstatus_val d sb msb lsb (by omega) (by omega) (by omega)]
+  congr 1
+  have := wrongP_iff d sb msb lsb
+  unfold bitAt fld at this
+  cases hw : wrongP d sb msb lsb with
+  | true => exact (decide_eq_true (this.mp hw)).symm
+  | false =>
+    symm
+    apply decide_eq_false
+    intro hc
+    rw [this.mpr hc] at hw
+    exact absurd hw (by decide)
+
+/-- a field is "not all zero" iff one of its bits is 1 -/
+theorem field_nonzero_iff (d : Bits) (a b : Nat) : bin2int (slice a b d) ≠ 0 ↔ true ∈ slice a b d :=
+  fld_ne_zero_iff d a b
+
+example : wrongstatus (natToBits 56 1) 46 47 56 = .val true := by decide
+
+/-- the (status, msb, lsb) triples as coded, per register -/
+theorem rules_as_coded :
+    rules40 = [(1, 2, 13), (14, 15, 26), (27, 28, 39), (48, 49, 51), (54, 55, 56)] ∧
+    rules44 = [(5, 6, 23), (35, 36, 46), (47, 48, 49), (50, 51, 56)] ∧
+    rules45 = [(1, 2, 3), (4, 5, 6), (7, 8, 9), (10, 11, 12), (13, 14, 15), (16, 17, 26), (27, 28, 38), (39, 40, 51)] ∧
+    rules50 = [(1, 2, 11), (12, 13, 23), (24, 25, 34), (35, 36, 45), (46, 47, 56)] ∧
+    rules60 = [(1, 2, 12), (13, 14, 23), (24, 25, 34), (35, 36, 45), (46, 47, 56)] := ⟨rfl, rfl, rfl, rfl, rfl⟩
+
+/-- BDS 4,0: status bit `sb` (1-based) is 0 and some bit of MB bits `msb..lsb` is 1 ⇒ not BDS 4,0 -/
+theorem is40_status_sound (bits : Bits) (h : bits.length = 112) (t : Nat × Nat × Nat) (ht : t ∈ rules40)
+    (h0 : bitAt (mbOf bits) (t.1 - 1) = false) (h1 : true ∈ slice (t.2.1 - 1) t.2.2 (mbOf bits)) :
+    is40 bits = .val false := by
+  rw [is40_val bits h]; congr 1
+  apply bool_false_of_not; intro hp
+  have := statusP_false_of_wrong _ _ t ht h0 ((fld_ne_zero_iff _ _ _).mpr h1)
+  rw [is40P_status _ hp] at this; exact absurd this (by decide)
+
+theorem is44_status_sound (bits : Bits) (h : bits.length = 112) (t : Nat × Nat × Nat) (ht : t ∈ rules44)
+    (h0 : bitAt (mbOf bits) (t.1 - 1) = false) (h1 : true ∈ slice (t.2.1 - 1) t.2.2 (mbOf bits)) :
+    is44 bits = .val false := by
+  rw [is44_val bits h]; congr 1
+  apply bool_false_of_not; intro hp
+  have := statusP_false_of_wrong _ _ t ht h0 ((fld_ne_zero_iff _ _ _).mpr h1)
+  rw [is44P_status _ hp] at this; exact absurd this (by decide)
+
+theorem is45_status_sound (bits : Bits) (h : bits.length = 112) (t : Nat × Nat × Nat) (ht : t ∈ rules45)
+    (h0 : bitAt (mbOf bits) (t.1 - 1) = false) (h1 : true ∈ slice (t.2.1 - 1) t.2.2 (mbOf bits)) :
+    is45 bits = .val false := by
+  rw [is45_val bits h]; congr 1
+  apply bool_false_of_not; intro hp
+  have := statusP_false_of_wrong _ _ t ht h0 ((fld_ne_zero_iff _ _ _).mpr h1)
+  rw [is45P_status _ hp] at this; exact absurd this (by decide)
+
+theorem is50_status_sound (bits : Bits) (h : bits.length = 112) (t : Nat × Nat × Nat) (ht : t ∈ rules50)
+    (h0 : bitAt (mbOf bits) (t.1 - 1) = false) (h1 : true ∈ slice (t.2.1 - 1) t.2.2 (mbOf bits)) :
+    is50 bits = .val false := by
+  rw [is50_val bits h]; congr 1
+  apply bool_false_of_not; intro hp
+  have := statusP_false_of_wrong _ _ t ht h0 ((fld_ne_zero_iff _ _ _).mpr h1)
+  rw [is50P_status _ hp] at this; exact absurd this (by decide)
+
+theorem is60_status_sound (ias : Rat → Int → Rat) (bits : Bits) (h : bits.length = 112) (t : Nat × Nat × Nat)
+    (ht : t ∈ rules60) (h0 : bitAt (mbOf bits) (t.1 - 1) = false)
+    (h1 : true ∈ slice (t.2.1 - 1) t.2.2 (mbOf bits)) :
+    is60 ias bits = .val false := by
+  rw [is60_val ias bits h]; congr 1
+  apply bool_false_of_not; intro hp
+  have := statusP_false_of_wrong _ _ t ht h0 ((fld_ne_zero_iff _ _ _).mpr h1)
+  rw [is60CoreP_status _ (is60P_core ias bits hp)] at this; exact absurd this (by decide)
+
+/-- a status-rule violation in the concrete frame: GS status (bit 24) cleared but GS field kept -/
+example : is50 (natToBits 32 0xA0001838 ++ mb50 true false 10 true false 100 false 220 true false 3 true 230
+    ++ natToBits 24 0) = .val false := by decide +kernel
+
+/-- a label is among those joined exactly when its rule holds (and `mrar` for BDS44/45) -/
+theorem label_mem_iff (ias : Rat → Int → Rat) (bits : Bits) (mrar : Bool) :
+    ("BDS10" ∈ labelsP ias bits mrar ↔ is10P (mbOf bits) = true) ∧
+    ("BDS17" ∈ labelsP ias bits mrar ↔ is17P (mbOf bits) = true) ∧
+    ("BDS20" ∈ labelsP ias bits mrar ↔ is20P (mbOf bits) = true) ∧
+    ("BDS30" ∈ labelsP ias bits mrar ↔ is30P (mbOf bits) = true) ∧
+    ("BDS40" ∈ labelsP ias bits mrar ↔ is40P (mbOf bits) = true) ∧
+    ("BDS44" ∈ labelsP ias bits mrar ↔ (is44P (mbOf bits) = true ∧ mrar = true)) ∧
+    ("BDS45" ∈ labelsP ias bits mrar ↔ (is45P (mbOf bits) = true ∧ mrar = true)) ∧
+    ("BDS50" ∈ labelsP ias bits mrar ↔ is50P (mbOf bits) = true) ∧
+    ("BDS60" ∈ labelsP ias bits mrar ↔ is60P ias bits = true) := by
+  unfold labelsP
+  simp only [List.mem_append, mem_sel, Bool.and_eq_true]
+  refine ⟨?_, ?_, ?_, ?_, ?_, ?_, ?_, ?_, ?_⟩ <;> simp
+
+/-- a register whose rule fails is never reported: on the Comm-B path the answer is the join of a list that
+    does not contain its label (and on the other paths the answer is "EMPTY" or an ADS-B register) -/
+theorem infer_excludes (ias : Rat → Int → Rat) (bits : Bits) (mrar : Bool) (h : bits.length = 112)
+    (hz : bin2int (mbOf bits) ≠ 0) (ha : adsbOf bits = none) :
+    ∃ L : List String, infer ias bits mrar = .val (joinLabels L) ∧ L.Sublist allLabels ∧
+      (is10 bits = .val false → "BDS10" ∉ L) ∧ (is17 bits = .val false → "BDS17" ∉ L) ∧
+      (is20 bits = .val false → "BDS20" ∉ L) ∧ (is30 bits = .val false → "BDS30" ∉ L) ∧
+      (is40 bits = .val false → "BDS40" ∉ L) ∧ (is44 bits = .val false → "BDS44" ∉ L) ∧
+      (is45 bits = .val false → "BDS45" ∉ L) ∧ (is50 bits = .val false → "BDS50" ∉ L) ∧
+      (is60 ias bits = .val false → "BDS60" ∉ L) := by
+  refine ⟨labelsP ias bits mrar, infer_commb_frame ias bits mrar h hz ha, labelsP_sublist ias bits mrar, ?_⟩
+  obtain ⟨m10, m17, m20, m30, m40, m44, m45, m50, m60⟩ := label_mem_iff ias bits mrar
+  rw [is10_val bits h, is17_val bits h, is20_val bits h, is30_val bits h, is40_val bits h, is44_val bits h,
+    is45_val bits h, is50_val bits h, is60_val ias bits h]
+  refine ⟨?_, ?_, ?_, ?_, ?_, ?_, ?_, ?_, ?_⟩ <;> intro hf <;> injection hf with hf <;> intro hm
+  · rw [m10.mp hm] at hf; exact absurd hf (by decide)
+  · rw [m17.mp hm] at hf; exact absurd hf (by decide)
+  · rw [m20.mp hm] at hf; exact absurd hf (by decide)
+  · rw [m30.mp hm] at hf; exact absurd hf (by decide)
+  · rw [m40.mp hm] at hf; exact absurd hf (by decide)
+  · rw [(m44.mp hm).1] at hf; exact absurd hf (by decide)
+  · rw [(m45.mp hm).1] at hf; exact absurd hf (by decide)
+  · rw [m50.mp hm] at hf; exact absurd hf (by decide)
+  · rw [m60.mp hm] at hf; exact absurd hf (by decide)
+
+/-- outside the Comm-B path no Comm-B register is reported at all: the answer is "EMPTY" or the ADS-B register -/
+theorem infer_other_paths (ias : Rat → Int → Rat) (bits : Bits) (mrar : Bool) (h : bits.length = 112) :
+    (bin2int (mbOf bits) = 0 → infer ias bits mrar = .val (some "EMPTY")) ∧
+    (bin2int (mbOf bits) ≠ 0 → ∀ l, adsbOf bits = some l → infer ias bits mrar = .val (some l)) := by
+  rw [infer_val ias bits mrar h]
+  unfold inferP
+  constructor
+  · intro hz; rw [if_pos hz]
+  · intro hz l hl; rw [if_neg hz, hl]
+
+/-- BDS 1,0 reserved bits: first byte must be 0x10 and MB bits 10-14 zero -/
+theorem is10_reserved_sound (bits : Bits) (h : bits.length = 112)
+    (hv : slice 0 8 (mbOf bits) ≠ natToBits 8 0x10 ∨ true ∈ slice 9 14 (mbOf bits)) :
+    is10 bits = .val false := by
+  rw [is10_val bits h]; congr 1
+  apply bool_false_of_not; intro hp
+  obtain ⟨_, h1, h2⟩ := is10P_reserved _ hp
+  rcases hv with hv | hv
+  · exact hv h1
+  · exact (fld_ne_zero_iff _ _ _).mpr hv h2
+
+/-- BDS 1,7: exactly — not all zero, MB bits 25-56 zero, and the BDS 2,0 capability bit (MB bit 7) set -/
+theorem is17_iff (bits : Bits) (h : bits.length = 112) :
+    is17 bits = .val true ↔
+      (bin2int (mbOf bits) ≠ 0 ∧ bin2int (slice 24 56 (mbOf bits)) = 0 ∧ bitAt (mbOf bits) 6 = true) := by
+  have key := is17P_iff _ (mbOf_length bits h)
+  unfold fld at key
+  rw [is17_val bits h, ← key]
+  constructor
+  · intro hv; injection hv
+  · intro hv; rw [hv]
+
+theorem is17_reserved_sound (bits : Bits) (h : bits.length = 112)
+    (hv : true ∈ slice 24 56 (mbOf bits) ∨ bitAt (mbOf bits) 6 = false) : is17 bits = .val false := by
+  rw [is17_val bits h]; congr 1
+  apply bool_false_of_not; intro hp
+  obtain ⟨_, h1, h2⟩ := (is17P_iff _ (mbOf_length bits h)).mp hp
+  rcases hv with hv | hv
+  · exact (fld_ne_zero_iff _ _ _).mpr hv h1
+  · rw [hv] at h2; exact absurd h2 (by decide)
+
+/-- BDS 2,0: first byte 0x20 and (unless the callsign field is all zero) every character legal, i.e. none of the
+    eight 6-bit codes maps to '#' in the character table -/
+theorem is20_reserved_sound (bits : Bits) (h : bits.length = 112)
+    (hv : slice 0 8 (mbOf bits) ≠ natToBits 8 0x20 ∨
+      (true ∈ slice 8 56 (mbOf bits) ∧
+        ∃ i, i < 8 ∧ Tables.cs20Chars.getD (bin2int (slice (6 * i) (6 * i + 6) (slice 8 56 (mbOf bits)))) '#' = '#')) :
+    is20 bits = .val false := by
+  rw [is20_val bits h]; congr 1
+  apply bool_false_of_not; intro hp
+  obtain ⟨_, h1, h2⟩ := is20P_reserved _ hp
+  rcases hv with hv | ⟨hv, i, hi, hc⟩
+  · exact hv h1
+  · rcases h2 with h2 | h2
+    · exact (fld_ne_zero_iff _ _ _).mpr hv h2
+    · exact (cs20P_legal_iff _).mp h2 i hi hc
+
+/-- BDS 3,0: exactly — not all zero, first byte 0x30, threat type (MB bits 29-30) ≠ 3, MB bits 16-22 < 48 -/
+theorem is30_iff (bits : Bits) (h : bits.length = 112) :
+    is30 bits = .val true ↔
+      (bin2int (mbOf bits) ≠ 0 ∧ slice 0 8 (mbOf bits) = natToBits 8 0x30 ∧ slice 28 30 (mbOf bits) ≠ [true, true] ∧
+       bin2int (slice 15 22 (mbOf bits)) < 48) := by
+  have key := is30P_iff (mbOf bits)
+  unfold fld at key
+  rw [is30_val bits h, ← key]
+  constructor
+  · intro hv; injection hv
+  · intro hv; rw [hv]
+
+theorem is30_reserved_sound (bits : Bits) (h : bits.length = 112)
+    (hv : slice 0 8 (mbOf bits) ≠ natToBits 8 0x30 ∨ slice 28 30 (mbOf bits) = [true, true] ∨
+      48 ≤ bin2int (slice 15 22 (mbOf bits))) : is30 bits = .val false := by
+  rw [is30_val bits h]; congr 1
+  apply bool_false_of_not; intro hp
+  obtain ⟨_, h1, h2, h3⟩ := (is30P_iff _).mp hp
+  unfold fld at h3
+  rcases hv with hv | hv | hv
+  · exact hv h1
+  · exact h2 hv
+  · omega
+
+/-- BDS 4,0: exactly — not all zero, the five status rules, MB bits 40-47 and 52-53 zero -/
+theorem is40_iff (bits : Bits) (h : bits.length = 112) :
+    is40 bits = .val true ↔
+      (bin2int (mbOf bits) ≠ 0 ∧ statusP (mbOf bits) rules40 = true ∧ bin2int (slice 39 47 (mbOf bits)) = 0 ∧
+       bin2int (slice 51 53 (mbOf bits)) = 0) := by
+  have key := is40P_iff (mbOf bits)
+  unfold fld at key
+  rw [is40_val bits h, ← key]
+  constructor
+  · intro hv; injection hv
+  · intro hv; rw [hv]
+
+theorem is40_reserved_sound (bits : Bits) (h : bits.length = 112)
+    (hv : true ∈ slice 39 47 (mbOf bits) ∨ true ∈ slice 51 53 (mbOf bits)) : is40 bits = .val false := by
+  rw [is40_val bits h]; congr 1
+  apply bool_false_of_not; intro hp
+  obtain ⟨_, _, h1, h2⟩ := (is40P_iff _).mp hp
+  rcases hv with hv | hv
+  · exact (fld_ne_zero_iff _ _ _).mpr hv h1
+  · exact (fld_ne_zero_iff _ _ _).mpr hv h2
+
+/-- `statusP` spelled out: every listed status bit is set or its field is all zero -/
+theorem statusP_spec (d : Bits) (l : List (Nat × Nat × Nat)) :
+    statusP d l = true ↔ ∀ t ∈ l, bitAt d (t.1 - 1) = true ∨ bin2int (slice (t.2.1 - 1) t.2.2 d) = 0 :=
+  statusP_iff d l
+
+/-! ### 11. BDS 5,0, soundness and completeness of the plausibility limits -/
+
+/-- `is50` exactly, in integers: not all zero, the five status rules, and for the values that are present
+    |roll| ≤ 50° (signed roll field in −284..284), GS ≤ 600 kt (field ≤ 300), TAS ≤ 600 kt (field ≤ 300),
+    |TAS − GS| ≤ 200 kt (fields differ by ≤ 100) -/
+theorem is50_iff (bits : Bits) (h : bits.length = 112) :
+    is50 bits = .val true ↔
+      (bin2int (mbOf bits) ≠ 0 ∧ statusP (mbOf bits) rules50 = true ∧
+        (bitAt (mbOf bits) 0 = true → -284 ≤ sval (mbOf bits) 1 2 11 ∧ sval (mbOf bits) 1 2 11 ≤ 284) ∧
+        (bitAt (mbOf bits) 23 = true → fld (mbOf bits) 24 34 ≤ 300) ∧
+        (bitAt (mbOf bits) 45 = true → fld (mbOf bits) 46 56 ≤ 300) ∧
+        (bitAt (mbOf bits) 23 = true → bitAt (mbOf bits) 45 = true →
+          fld (mbOf bits) 46 56 ≤ fld (mbOf bits) 24 34 + 100 ∧ fld (mbOf bits) 24 34 ≤ fld (mbOf bits) 46 56 + 100)) := by
+  rw [is50_val bits h, ← is50P_iff]
+  constructor
+  · intro hv; injection hv
+  · intro hv; rw [hv]
+
+/-- completeness: every choice of the five (status, value) pairs — roll (sign `g1`, 9-bit magnitude `m1`), true
+    track (`g2`, `m2`), ground speed `gs`, track rate (`g4`, `m4`), true airspeed `tas` — with value 0 where the
+    status is 0, signed roll field in −284..284, GS and TAS fields ≤ 300, their difference ≤ 100 when both are
+    present, and not all absent, laid out with `build` between an arbitrary 32-bit header and 24-bit parity,
+    is accepted as BDS 5,0 -/
+theorem is50_complete (hdr par : Bits) (hh : hdr.length = 32) (hp : par.length = 24)
+    (s1 g1 : Bool) (m1 : Nat) (s2 g2 : Bool) (m2 : Nat) (s3 : Bool) (gs : Nat)
+    (s4 g4 : Bool) (m4 : Nat) (s5 : Bool) (tas : Nat)
+    (hm1 : m1 < 512) (hm2 : m2 < 1024) (hgs : gs < 1024) (hm4 : m4 < 512) (htas : tas < 1024)
+    (z1 : s1 = false → g1 = false ∧ m1 = 0) (z2 : s2 = false → g2 = false ∧ m2 = 0)
+    (z3 : s3 = false → gs = 0) (z4 : s4 = false → g4 = false ∧ m4 = 0) (z5 : s5 = false → tas = 0)
+    (hroll : s1 = true → -284 ≤ sroll g1 m1 ∧ sroll g1 m1 ≤ 284)
+    (hgs300 : s3 = true → gs ≤ 300) (htas300 : s5 = true → tas ≤ 300)
+    (hdiff : s3 = true → s5 = true → tas ≤ gs + 100 ∧ gs ≤ tas + 100)
+    (hne : s1 = true ∨ s2 = true ∨ s3 = true ∨ s4 = true ∨ s5 = true) :
+    is50 (hdr ++ build [(1, s1.toNat), (1, g1.toNat), (9, m1), (1, s2.toNat), (1, g2.toNat), (10, m2),
+      (1, s3.toNat), (10, gs), (1, s4.toNat), (1, g4.toNat), (9, m4), (1, s5.toNat), (10, tas)] ++ par) = .val true := by
+  have hl := mb50_length s1 g1 m1 s2 g2 m2 s3 gs s4 g4 m4 s5 tas
+  have hlen : (hdr ++ mb50 s1 g1 m1 s2 g2 m2 s3 gs s4 g4 m4 s5 tas ++ par).length = 112 := by
+    simp only [List.length_append, hh, hp, hl]
+  show is50 (hdr ++ mb50 s1 g1 m1 s2 g2 m2 s3 gs s4 g4 m4 s5 tas ++ par) = .val true
+  rw [is50_val _ hlen, mbOf_frame hdr _ par hh hl,
+    is50P_mb50 s1 g1 m1 s2 g2 m2 s3 gs s4 g4 m4 s5 tas hm1 hm2 hgs hm4 htas z1 z2 z3 z4 z5 hroll hgs300 htas300 hdiff hne]
+
+/-- … and therefore "BDS50" is in `infer`'s answer for such a Comm-B reply -/
+theorem infer_reports_50 (ias : Rat → Int → Rat) (bits : Bits) (mrar : Bool) (h : bits.length = 112)
+    (h50 : is50 bits = .val true) : "BDS50" ∈ labelsP ias bits mrar := by
+  rw [is50_val bits h] at h50
+  injection h50 with h50
+  exact (label_mem_iff ias bits mrar).2.2.2.2.2.2.2.1.mpr h50
+
+/-- the hypotheses of `is50_complete` are met by a concrete payload (roll 10, track 100, GS 220, rate 3, TAS 230) -/
+example : is50 exFrame50 = .val true :=
+  is50_complete _ _ (by decide) (by decide) true false 10 true false 100 true 220 true false 3 true 230
+    (by decide) (by decide) (by decide) (by decide) (by decide) (by decide) (by decide) (by decide) (by decide)
+    (by decide) (by decide) (by decide) (by decide) (by decide) (by decide)
+
+/-- a negative roll (sign bit set, magnitude 300: field value −212) is accepted too; −300 (magnitude 212) is not -/
+example : sroll true 300 = -212 ∧ sroll true 212 = -300 := by decide
+
+
+/-! ### 11 (continued). BDS 4,0 and BDS 6,0 -/
+
+/-- completeness of BDS 4,0: any in-range selected altitudes / pressure setting / mode bits / source with value 0
+    where the status is 0, the reserved bits 40-47 and 52-53 zero, not everything absent -/
+theorem is40_complete (hdr par : Bits) (hh : hdr.length = 32) (hp : par.length = 24)
+    (s1 : Bool) (mcp : Nat) (s2 : Bool) (fms : Nat) (s3 : Bool) (baro : Nat) (s4 : Bool) (modes : Nat)
+    (s5 : Bool) (src : Nat)
+    (h1 : mcp < 4096) (h2 : fms < 4096) (h3 : baro < 4096) (h4 : modes < 8) (h5 : src < 4)
+    (z1 : s1 = false → mcp = 0) (z2 : s2 = false → fms = 0) (z3 : s3 = false → baro = 0)
+    (z4 : s4 = false → modes = 0) (z5 : s5 = false → src = 0)
+    (hne : s1 = true ∨ s2 = true ∨ s3 = true ∨ s4 = true ∨ s5 = true) :
+    is40 (hdr ++ build [(1, s1.toNat), (12, mcp), (1, s2.toNat), (12, fms), (1, s3.toNat), (12, baro), (8, 0),
+      (1, s4.toNat), (3, modes), (2, 0), (1, s5.toNat), (2, src)] ++ par) = .val true := by
+  have hl := mb40_length s1 mcp s2 fms s3 baro s4 modes s5 src
+  have hlen : (hdr ++ mb40 s1 mcp s2 fms s3 baro s4 modes s5 src ++ par).length = 112 := by
+    simp only [List.length_append, hh, hp, hl]
+  show is40 (hdr ++ mb40 s1 mcp s2 fms s3 baro s4 modes s5 src ++ par) = .val true
+  rw [is40_val _ hlen, mbOf_frame hdr _ par hh hl,
+    is40P_mb40 s1 mcp s2 fms s3 baro s4 modes s5 src h1 h2 h3 h4 h5 z1 z2 z3 z4 z5 hne]
+
+example : is40 (natToBits 32 0xA0001838 ++ build [(1, 1), (12, 2000), (1, 0), (12, 0), (1, 1), (12, 2132), (8, 0),
+    (1, 0), (3, 0), (2, 0), (1, 0), (2, 0)] ++ natToBits 24 0) = .val true :=
+  is40_complete _ _ (by decide) (by decide) true 2000 false 0 true 2132 false 0 false 0
+    (by decide) (by decide) (by decide) (by decide) (by decide) (by decide) (by decide) (by decide) (by decide)
+    (by decide) (by decide)
+
+theorem is60Core_frame (bits : Bits) (h : bits.length = 112) : is60Core bits = .val (is60CoreP (mbOf bits)) :=
+  is60Core_val bits h
+
+/-- `is60Core` (is60 before the altitude cross-check) exactly, in integers: not all zero, the five status rules,
+    IAS ≤ 500 kt, Mach ≤ 1 (field ≤ 250), |vertical rates| ≤ 6000 ft/min (signed fields in −187..187) -/
+theorem is60Core_iff (bits : Bits) (h : bits.length = 112) :
+    is60Core bits = .val true ↔
+      (bin2int (mbOf bits) ≠ 0 ∧ statusP (mbOf bits) rules60 = true ∧
+        (bitAt (mbOf bits) 12 = true → fld (mbOf bits) 13 23 ≤ 500) ∧
+        (bitAt (mbOf bits) 23 = true → fld (mbOf bits) 24 34 ≤ 250) ∧
+        (bitAt (mbOf bits) 34 = true → -187 ≤ sval (mbOf bits) 35 36 45 ∧ sval (mbOf bits) 35 36 45 ≤ 187) ∧
+        (bitAt (mbOf bits) 45 = true → -187 ≤ sval (mbOf bits) 46 47 56 ∧ sval (mbOf bits) 46 47 56 ≤ 187)) := by
+  rw [is60Core_val bits h, ← is60CoreP_iff]
+  constructor
+  · intro hv; injection hv
+  · intro hv; rw [hv]
+
+/-- completeness of `is60Core` -/
+theorem is60Core_complete (hdr par : Bits) (hh : hdr.length = 32) (hp : par.length = 24)
+    (s1 g1 : Bool) (hdg : Nat) (s2 : Bool) (ias : Nat) (s3 : Bool) (mach : Nat)
+    (s4 g4 : Bool) (vb : Nat) (s5 g5 : Bool) (vi : Nat)
+    (hhd : hdg < 1024) (hi : ias < 1024) (hm : mach < 1024) (hvb : vb < 512) (hvi : vi < 512)
+    (z1 : s1 = false → g1 = false ∧ hdg = 0) (z2 : s2 = false → ias = 0) (z3 : s3 = false → mach = 0)
+    (z4 : s4 = false → g4 = false ∧ vb = 0) (z5 : s5 = false → g5 = false ∧ vi = 0)
+    (hias : s2 = true → ias ≤ 500) (hmach : s3 = true → mach ≤ 250)
+    (hb : s4 = true → -187 ≤ s9 g4 vb ∧ s9 g4 vb ≤ 187) (hn : s5 = true → -187 ≤ s9 g5 vi ∧ s9 g5 vi ≤ 187)
+    (hne : s1 = true ∨ s2 = true ∨ s3 = true ∨ s4 = true ∨ s5 = true) :
+    is60Core (hdr ++ build [(1, s1.toNat), (1, g1.toNat), (10, hdg), (1, s2.toNat), (10, ias), (1, s3.toNat),
+      (10, mach), (1, s4.toNat), (1, g4.toNat), (9, vb), (1, s5.toNat), (1, g5.toNat), (9, vi)] ++ par) = .val true := by
+  have hl := mb60_length s1 g1 hdg s2 ias s3 mach s4 g4 vb s5 g5 vi
+  have hlen : (hdr ++ mb60 s1 g1 hdg s2 ias s3 mach s4 g4 vb s5 g5 vi ++ par).length = 112 := by
+    simp only [List.length_append, hh, hp, hl]
+  show is60Core (hdr ++ mb60 s1 g1 hdg s2 ias s3 mach s4 g4 vb s5 g5 vi ++ par) = .val true
+  rw [is60Core_val _ hlen, mbOf_frame hdr _ par hh hl,
+    is60CoreP_mb60 s1 g1 hdg s2 ias s3 mach s4 g4 vb s5 g5 vi hhd hi hm hvb hvi z1 z2 z3 z4 z5 hias hmach hb hn hne]
+
+/-- outside DF20 (and whenever Mach or IAS is absent) the altitude cross-check is vacuous: `is60` is `is60Core` -/
+theorem is60_eq_core (ias : Rat → Int → Rat) (bits : Bits) (h : bits.length = 112)
+    (hc : dfB bits ≠ 20 ∨ bitAt (mbOf bits) 12 = false ∨ bitAt (mbOf bits) 23 = false) :
+    is60 ias bits = is60Core bits := by
+  rw [is60_val ias bits h, is60Core_val bits h]
+  congr 1
+  have ha : is60AltP ias bits = true := by
+    unfold is60AltP mach60P ias60P ufieldP
+    rcases hc with hc | hc | hc
+    · split
+      · rw [if_neg hc]
+      · rfl
+    · rw [hc]; simp
+    · rw [hc]; simp
+  unfold is60P
+  rw [ha]
+  cases is60CoreP (mbOf bits) <;> rfl
+
+example : is60Core (natToBits 32 0xA0001838 ++ build [(1, 1), (1, 0), (10, 300), (1, 1), (10, 280), (1, 1),
+    (10, 200), (1, 1), (1, 1), (9, 500), (1, 0), (1, 0), (9, 0)] ++ natToBits 24 0) = .val true :=
+  is60Core_complete _ _ (by decide) (by decide) true false 300 true 280 true 200 true true 500 false false 0
+    (by decide) (by decide) (by decide) (by decide) (by decide) (by decide) (by decide) (by decide) (by decide)
+    (by decide) (by decide) (by decide) (by decide) (by decide) (by decide)
+
+
+/-- `None` exactly when no rule holds -/
+theorem joinLabels_none_iff (l : List String) : joinLabels l = none ↔ l = [] := by
+  unfold joinLabels
+  cases l <;> simp
+
+theorem infer_none_of_no_rule (ias : Rat → Int → Rat) (bits : Bits) (mrar : Bool) (h : bits.length = 112)
+    (hz : allzerosB bits = .val false)
+    (hadsb : dfB bits = 17 → ∀ tc, tcB bits = some tc → inferAdsb tc = none)
+    (h10 : is10 bits = .val false) (h17 : is17 bits = .val false) (h20 : is20 bits = .val false)
+    (h30 : is30 bits = .val false) (h40 : is40 bits = .val false) (h44 : is44 bits = .val false)
+    (h45 : is45 bits = .val false) (h50 : is50 bits = .val false) (h60 : is60 ias bits = .val false) :
+    infer ias bits mrar = .val none :=
+  infer_commb_eq_rules ias bits mrar h hz hadsb false false false false false false false false false
+    h10 h17 h20 h30 h40 h44 h45 h50 h60
+
 
 end PyModeS.C12
